@@ -1592,6 +1592,6 @@ impl Scenario for C08 {
     }
 
     fn watchdog_secs(&self) -> u64 {
-        180
+        600
     }
 }
